@@ -4,6 +4,7 @@ package main
 // implementation (spec overlay), label by label.
 
 import (
+	"os"
 	"crypto/sha1"
 	"fmt"
 	"sort"
@@ -72,7 +73,10 @@ func compareSummaries(p *Program, code, spec *Summary) *equivResult {
 			search = func(j int) bool {
 				if j == n {
 					for a := 0; a < n; a++ {
-						if ok, _ := eq(cl.Vars[a].Step, sl.Vars[perm[a]].Step); !ok {
+						if ok, m := eq(cl.Vars[a].Step, sl.Vars[perm[a]].Step); !ok {
+							if os.Getenv("RDM_DEBUG") != "" {
+								fmt.Printf("DEBUG perm %v: step of code var %d vs reference var %d: %s\n", perm, a, perm[a], m)
+							}
 							return false
 						}
 					}
@@ -146,6 +150,8 @@ func compareSummaries(p *Program, code, spec *Summary) *equivResult {
 	}
 	// --- effects: an unordered collection per region (independent statements may be reordered; data
 	// dependences are part of the terms, random draws carry their sequence number)
+	code.Effects = mergeExclusiveWrites(code.Effects)
+	spec.Effects = mergeExclusiveWrites(spec.Effects)
 	if len(code.Effects) != len(spec.Effects) {
 		fail("effects differ: code %s | reference %s", effectKinds(p, code), effectKinds(p, spec))
 	} else {
@@ -207,6 +213,58 @@ func compareSummaries(p *Program, code, spec *Summary) *equivResult {
 		}
 	}
 	return r
+}
+
+// mergeExclusiveWrites: writes to one and the same target under mutually exclusive guards
+// (if c { m[k] = a } else { m[k] = b }) are one write of a guarded value (m[k] = ite(c, a, b)).
+func mergeExclusiveWrites(effects []Effect) []Effect {
+	canon := func(t *Term) (string, bool) {
+		s, need := tryCanon(t, map[string]bool{})
+		return s, need == ""
+	}
+	targetOf := func(e Effect) (string, bool) {
+		switch e.Kind {
+		case "store":
+			s, ok := canon(e.Args[0])
+			return "store|" + s, ok
+		case "mapupdate":
+			a, ok1 := canon(e.Args[0])
+			b, ok2 := canon(e.Args[1])
+			return "map|" + a + "|" + b, ok1 && ok2
+		}
+		return "", false
+	}
+	var out []Effect
+	merged := make([]bool, len(effects))
+	for i, e := range effects {
+		if merged[i] {
+			continue
+		}
+		ti, ok := targetOf(e)
+		if ok {
+			for j := i + 1; j < len(effects); j++ {
+				f := effects[j]
+				if merged[j] || f.Kind != e.Kind || f.Region != e.Region {
+					continue
+				}
+				tj, ok2 := targetOf(f)
+				if !ok2 || tj != ti {
+					continue
+				}
+				// exclusive guards?
+				if excl, _, _ := equivTerms(tAnd(e.Guard, f.Guard), tFalse(), maxAtoms); !excl {
+					continue
+				}
+				last := len(e.Args) - 1
+				args := append([]*Term{}, e.Args...)
+				args[last] = tIte(e.Guard, e.Args[last], f.Args[last])
+				e = Effect{e.Kind, e.Region, simplifyBool(tOr(e.Guard, f.Guard)), args, e.Pos}
+				merged[j] = true
+			}
+		}
+		out = append(out, e)
+	}
+	return out
 }
 
 func abs(i int) int {
